@@ -5,4 +5,5 @@ import LettreVerif.Props.C08
 #print axioms LV.C08.live_connection_probed_first
 #print axioms LV.C08.failed_probe_closes
 #print axioms LV.C08.failed_connection_closed
+#print axioms LV.C08.reachable_connections_are_healthy
 #print axioms LV.C08.parked_connections_are_healthy
